@@ -22,6 +22,16 @@ def sub(b):
     return b.hex() if b else "."
 
 
+def heal_extract():
+    """vlib.build_refmodel keeps its stamp when an extraction run fails after the old .ml files were removed
+    (e.g. while /repo carried a constant that broke the model); drop the stamp so that it extracts again."""
+    exdir = BUILD / "extract" / FAMILY
+    if exdir.is_dir() and not list(exdir.glob("*.ml")):
+        for st in (exdir / ".hash", BUILD / "ocaml" / FAMILY / ".hash"):
+            if st.exists():
+                st.unlink()
+
+
 class GoSide:
     """Runs the overlay harness; splits every result line at ' | ' into the part that is compared with
     the model and the implementation-only part (kept in .side for the oracle and the second pass)."""
